@@ -156,7 +156,10 @@ func (m *Message) decodeAVPs(b []byte) error {
 			return fmt.Errorf("Failed to decode AVP: %s", err)
 		}
 		m.AVP = append(m.AVP, a)
-		n += a.Len()
+		// Advance by the declared length, not by the size of the
+		// decoded value, which may differ (e.g. a fixed-width type
+		// carrying a payload of another size).
+		n += a.wireLen()
 	}
 	return nil
 }
